@@ -64,8 +64,9 @@ PROPS = {
              "every resettable filter kind (22 kinds + cache wrappers over 9 inner kinds): random configuration, history long enough to fill windows, reset, configuration compared, then the reset instance and a freshly constructed one fed identical inputs (outputs must coincide), further resets at random points. Non-trivial: >= 3 ops and a reset executed.",
              nontrivial=["reset"],
              # value disagreements of a single filter belong to that filter's property; C12 is decided by the
-             # reset-vs-fresh differential, the configuration and the cache slot
-             diff_ops=["same", "cfg", "reset", "fresh", "new"]),
+             # reset-vs-fresh differential, the configuration before vs after (as the implementation prints it) and
+             # the cache slot
+             diff_ops=["same", "reset", "fresh", "new"]),
     "C13": P(["C13"], ["C13."],
              "exp::Mean<Q> and median::exp::Median<Q>: gains in [0,1] (end points included) and outside; random rationals, constants. Non-trivial: >= 3 ops, at least two samples.",
              nontrivial=["multi"]),
